@@ -59,7 +59,9 @@ CfgRec(lk, tk, nk, ck, fk, mk, sk, el, et, en, ec, tz, nm, cd, st, le) ==
    el |-> el, et |-> et, en |-> en, ec |-> ec, tz |-> tz, nm |-> nm, cd |-> cd, st |-> st, le |-> le]
 Std == CfgRec(TRUE, TRUE, TRUE, TRUE, TRUE, TRUE, TRUE, "str", "str", "str", "str", FALSE, TRUE, TRUE, TRUE, "default")
 Cfgs ==
-  CASE CfgSet = "two" ->
+  CASE CfgSet = "nometa" ->
+        {CfgRec(FALSE, FALSE, FALSE, FALSE, FALSE, FALSE, FALSE, "nil", "nil", "nil", "nil", FALSE, TRUE, TRUE, TRUE, "default")}
+    [] CfgSet = "two" ->
         {Std, CfgRec(FALSE, FALSE, FALSE, FALSE, FALSE, FALSE, FALSE, "nil", "nil", "nil", "nil", FALSE, TRUE, TRUE, TRUE, "default")}
     [] CfgSet = "few" ->
         {Std,
